@@ -23,8 +23,8 @@ Definition pyp_user (name : str) (args : list term) : option (code lx fr callp *
 
 (* the same predicate as the machine code of its text over rows (RefineNative.pyrows), registered under the key 'pyp_1' *)
 Definition pyp_rows : list frow := [ {| r_vals := [TAtom (d "a")]; r_nv := 0 |}; {| r_vals := [TAtom (d "c")]; r_nv := 0 |} ].
-Definition pyp_fix (name : str) (k : nat) : option ucode :=
-  if str_eqb name (d "pyp") && Nat.eqb k 1 then Some (pyrows pyp_rows false) else None.
+Definition pyp_fix (raises : bool) (name : str) (k : nat) : option ucode :=
+  if str_eqb name (d "pyp") && Nat.eqb k 1 then Some (pyrows pyp_rows raises) else None.
 Definition novar : str -> option ucode := fun _ => None.
 
 Definition facts_of (db : list (str * nat * list fact)) (name : str) (ar : nat) : list fact :=
@@ -61,7 +61,8 @@ Definition mkleaf_nc (x : lx) (h : heap) : leaf :=
 (* the machine is RefineNative.wprog: ALL of YP.query (dynamic facts, reserved names, registered Python predicate,
    generator function, builtins) - the machine program of machine_refines_nquery *)
 Definition run_machine (fuel d : nat) (p : program) (db : list (str * nat * list fact)) (stk : list (term * term))
-    (name : str) (args : list term) (nq kmax k : nat) : obs :=
+    (name : str) (args : list term) (nq kmax k : nat) (pyraises : bool) : obs :=
+  let pyp_fix := pyp_fix pyraises in
   match compile_program p with
   | None => otag "stuck" []
   | Some ir =>
